@@ -1,12 +1,33 @@
 /-
   Props/C10.lean — C10: integer literals are range-checked exactly and keep their value.
-  (extended with the parser theorems from Proofs/Literal.lean)
+
+  Spec (Model/Literal.lean): `isIntLit` = the integer alternatives of the lexer's NumberPattern,
+  `specVal` = the literal's mathematical value (±Σ dᵢ·baseⁱ, see `value_is_positional_sum`).
+  Impl-model: the transcription of internal/utils/numeric (after the fix of F6/F20), tied to the Go
+  code by checks/c10.py (gohook numparse / fitshex / bigparse) on every run.
 -/
-import FerretVerif.Model.Literal
+import FerretVerif.Proofs.Literal
 import FerretVerif.Proofs.Limbs
 
 namespace FerretVerif.C10
 open FerretVerif.Literal
+
+/-- every well-formed integer literal — any base, any length, `_` separators, optional `-` —
+    is parsed to exactly its mathematical value (this is the value constant emission uses) -/
+theorem literal_value_preserved (s : List Char) (h : isIntLit s = true) :
+    newNumericValue s = some (specVal s) := newNumericValue_spec s h
+
+/-- the range check accepts a literal for a `bits`-wide integer type exactly when its value is in range -/
+theorem fits_exact (s : List Char) (bits : Nat) (signed : Bool) (h : isIntLit s = true) :
+    fitsInType s bits signed = true ↔
+      (if signed then -(2 ^ (bits - 1) : Int) ≤ specVal s ∧ specVal s ≤ 2 ^ (bits - 1) - 1
+       else 0 ≤ specVal s ∧ specVal s ≤ 2 ^ bits - 1) := Literal.fits_exact s bits signed h
+
+/-- `specVal`'s magnitude really is the positional sum Σ dᵢ·base^(k-1-i) over the digits -/
+theorem value_is_positional_sum (base : Nat) (ds : List Char) :
+    digitsVal base ds = ((List.range (clean ds).length).map
+      (fun i => digitVal ((clean ds).getD i '0') * base ^ ((clean ds).length - 1 - i))).sum :=
+  digitsVal_eq_sum base ds
 
 /-- the range test applied to a parsed value is exactly the type's range -/
 theorem fitsBits_exact (v : Int) (bits : Nat) (signed : Bool) :
@@ -14,14 +35,28 @@ theorem fitsBits_exact (v : Int) (bits : Nat) (signed : Bool) :
       (if signed then -(2 ^ (bits - 1) : Int) ≤ v ∧ v ≤ 2 ^ (bits - 1) - 1 else 0 ≤ v ∧ v ≤ 2 ^ bits - 1) := by
   unfold fitsBits; cases signed <;> simp
 
-/-- the code as shipped evaluated a decimal literal with a leading zero in octal (finding F6) -/
+/-- the code as shipped evaluated a decimal literal with a leading zero in octal (finding F6) … -/
 theorem old_leading_zero_witness :
-    isIntLit ['0', '1', '2', '7'] = true ∧ specVal ['0', '1', '2', '7'] = 127
-      ∧ newNumericValueOld ['0', '1', '2', '7'] = some 87 ∧ newNumericValue ['0', '1', '2', '7'] = some 127 := by decide
+    newNumericValueOld ['0','1','2','7'] = some 87 ∧ specVal ['0','1','2','7'] = 127 ∧ isIntLit ['0','1','2','7'] = true :=
+  Literal.old_leading_zero_witness
 
-/-- run-time materialisation of 128/256-bit constants: each digit step of the runtime parser is exact -/
+theorem old_separator_witness :
+    newNumericValueOld ['0','_','1','_','0'] = some 8 ∧ specVal ['0','_','1','_','0'] = 10
+      ∧ isIntLit ['0','_','1','_','0'] = true := Literal.old_separator_witness
+
+/-- … and rejected in-range negative prefixed literals beyond 64 bits (finding F20) -/
+theorem old_negative_hex_witness :
+    newNumericValueOld "-0xFFFFFFFFFFFFFFFFFF".toList = none ∧ isIntLit "-0xFFFFFFFFFFFFFFFFFF".toList = true
+      ∧ newNumericValue "-0xFFFFFFFFFFFFFFFFFF".toList = some (-4722366482869645213695)
+      ∧ specVal "-0xFFFFFFFFFFFFFFFFFF".toList = -4722366482869645213695 := Literal.old_negative_hex_witness
+
+/-- run-time materialisation of 128/256-bit constants: each digit step of the runtime parser
+    (ferret_mul_add_small) is exact modulo B^n, for both limb widths -/
 theorem runtime_digit_step (B base : Nat) (hB : 0 < B) (v : List Nat) (d : Nat) :
     Limbs.val B (Limbs.mulAddSmall B base v d) = (Limbs.val B v * base + d) % B ^ v.length :=
   Limbs.mulAddSmall_spec B base hB v d
+
+-- non-vacuity: a non-trivial literal satisfies the hypothesis
+example : isIntLit "-0x7f_FF".toList = true ∧ specVal "-0x7f_FF".toList = -32767 := by decide
 
 end FerretVerif.C10
